@@ -38,7 +38,10 @@ var c16points = []c16point{
 	{"build@init-command-running", "", 0, 0},
 }
 
-var c16ops = []string{"ping", "open", "reset", "execve", "execve-syncafter"}
+// "+uid-dropped": the controller built the environment as root and then switched to an ordinary uid (a daemon that sheds
+// its privileges): the kernel then refuses to deliver the controller's parent-death signal to the init (it is sent with
+// the dying parent's credentials), so only the control socket tells the init that its controller is gone
+var c16ops = []string{"ping", "open", "reset", "execve", "execve-syncafter", "execve+uid-dropped", "execve-syncafter+uid-dropped"}
 
 const c16shape = "i,d,p+,o"
 
@@ -63,6 +66,18 @@ func c16ctl(args []string) int {
 	if err != nil {
 		fmt.Println("ERR", err)
 		return 3
+	}
+	if strings.HasSuffix(op, "+uid-dropped") {
+		op = strings.TrimSuffix(op, "+uid-dropped")
+		// for this controller the init must learn of its death from the control socket, which it cannot while it is parked
+		// inside a verif point: parked points are let go when the controller is gone
+		env.ctl.ReleaseOnEOF()
+		syscall.Setgroups([]int{65534})
+		syscall.Setresgid(65534, 65534, 65534)
+		if err := syscall.Setresuid(65534, 65534, 65534); err != nil {
+			fmt.Println("ERR", err)
+			return 3
+		}
 	}
 	if pt.name == "idle-after-build" {
 		at()
@@ -181,7 +196,7 @@ func init() {
 		spec := &mc.Spec{
 			Level: "fault_enumeration",
 			Rule: "container: operation ∈ {ping, open, reset, execve (sync before / after exec) of a process tree with a signal-ignoring child, a double-forked daemon, a grandchild and a HUP/TERM-ignoring child} × crash point ∈ {idle after build, host held at send-pre / send-post / recv, inside the callback, send-pre(ok), select, while the program runs, " +
-				"container held at dispatch / started / select / reply withheld, while the init runs a long init command during build}: the controller (a helper process) is SIGKILLed exactly there; tracer: the tracing process is SIGKILLed at every tracer step of a run of the same kind of tree (descendants made by fork, or by clone(CLONE_UNTRACED); with a filter, and — first 12 steps — without one, where the child's first stop is its exec's SIGTRAP), and on the vfork launch path while its child is held before PTRACE_TRACEME (child released afterwards or never; with and without a credential switch in the child). " +
+				"container held at dispatch / started / select / reply withheld, while the init runs a long init command during build}: the controller (a helper process; for the execve operations also one that switched to an ordinary uid after Build, whose parent-death signal the kernel refuses to deliver) is SIGKILLed exactly there; tracer: the tracing process is SIGKILLed at every tracer step of a run of the same kind of tree (descendants made by fork, or by clone(CLONE_UNTRACED); with a filter, and — first 12 steps — without one, where the child's first stop is its exec's SIGTRAP), and on the vfork launch path while its child is held before PTRACE_TRACEME (child released afterwards or never; with and without a credential switch in the child). " +
 				"Oracle: the container init and every process carrying the run's nonce are gone within the horizon without further action. distinct = (operation, crash point, what was alive before / after)",
 			Bound:       map[string]any{"tree": c16shape, "tracer_steps": 40},
 			Assumptions: []string{"a launcher child that has not exec'ed the target yet is not an untrusted process", "the three mechanisms (parent-death signal, socket EOF, pid-namespace teardown; PTRACE_O_EXITKILL) overlap: crash points where only one of them applies are in the alphabet on purpose (container held inside a point that does not watch the socket; init busy with the init command)"},
@@ -212,6 +227,11 @@ func init() {
 			}
 			if (pt.name == "idle-after-build" || pt.name == "build@init-command-running") && op != "ping" {
 				x.Outcome("n/a")
+				return
+			}
+			if strings.HasSuffix(op, "+uid-dropped") && !(pt.name == "inside-callback" || pt.name == "host@send-pre(ok)" || pt.name == "host@select" || pt.name == "while-program-runs" ||
+				pt.name == "container@started" || pt.name == "container@select") {
+				x.Outcome("n/a") // the crash points of the synchronisation window and of the running program are enough for this controller
 				return
 			}
 			if x.Dry() {
